@@ -98,7 +98,7 @@ func c14r1(c *an.Ctx) {
 	okRead := false
 	an.Instrs(gr, func(in ssa.Instruction) {
 		call, ok := in.(*ssa.Call)
-		if !ok || call.Common().StaticCallee() == nil || call.Common().StaticCallee().Name() != "readExactly" {
+		if !ok || call.Common().StaticCallee() == nil || nameOf(call.Common().StaticCallee()) != "readExactly" {
 			return
 		}
 		if _, isC := an.ConstInt(call.Common().Args[1]); isC {
@@ -114,7 +114,7 @@ func c14r1(c *an.Ctx) {
 	okSend := false
 	an.Instrs(ms, func(in ssa.Instruction) {
 		call, ok := in.(*ssa.Call)
-		if !ok || call.Common().StaticCallee() == nil || call.Common().StaticCallee().Name() != "framedWrite" {
+		if !ok || call.Common().StaticCallee() == nil || nameOf(call.Common().StaticCallee()) != "framedWrite" {
 			return
 		}
 		for _, g := range an.GuardsOf(in.Block()) {
@@ -313,7 +313,7 @@ func c14r3(c *an.Ctx) {
 		if !ok {
 			return
 		}
-		if callee := call.Common().StaticCallee(); callee != nil && callee.Name() == "readExactly" {
+		if callee := call.Common().StaticCallee(); callee != nil && nameOf(callee) == "readExactly" {
 			if k, isC := an.ConstInt(call.Common().Args[1]); isC && k == 5 {
 				okR5 = true
 			}
@@ -447,7 +447,7 @@ func c14r4(c *an.Ctx) {
 		}
 		nW++
 		arg := an.Resolve(call.Common().Args[0])
-		if p := an.PathOf(arg); p.Last() != nil && p.Last().Name() == "response" {
+		if p := an.PathOf(arg); p.Last() != nil && nameOf(p.Last()) == "response" {
 			return // success body
 		}
 		if ex, isEx := arg.(*ssa.Extract); isEx {
